@@ -704,25 +704,14 @@ Theorem C10_mcf_int32_optimal_below_bound : forall e c md x,
 Proof. exact mcf_int32_optimal_below_bound. Qed.
 Print Assumptions C10_mcf_int32_optimal_below_bound.
 
-(* C10_emd_int32_correct_below_bound — PARTIAL, end to end.  FULL statement aimed at: below the bound,
-   a finished run of emd_hat_gd_metric / emd_hat as written for int32 returns the earth mover's distance.
-   PROVED: under no_wrap_b (decidable, evaluated per case and variant) the as-written run returns
-   exactly the distance and flow of the flagged line-level model (as written = exact program
-   = line-level model), so any statement about the line-level answer is a statement about the int32 code.
-   REMAINING PREMISES, exactly: (i) flag clear — the answer of the flagged model carries false
-   (evaluated per case: never set below the bound; artificial_node_unused would discharge it);
-   (ii) read_back_bookkeeping (with x_caps_consistent): from the flag-clear line-level answer — whose
-   capacity flow is a minimum-cost flow by C10_mcf_int32_optimal_below_bound — to emd_spec; OPEN,
-   a premise on the instance.  mcf_no_fail_if_flag_clear is not needed here: the run is assumed finished. *)
-Theorem C10_emd_int32_correct_below_bound_partial : forall p q c pen ft gd d F,
-  no_wrap_b p q c pen ft gd = true ->
-  emd_int32_as_written p q c pen ft gd = (0, d, F) ->
-  (exists fl, emd_hat_int32_llf p q c pen ft gd = Some (d, F, fl)) /\
-  forall d' F', emd_hat_int32_llf p q c pen ft gd = Some (d', F', false) ->
-    (emd_hat_int32_llf p q c pen ft gd = Some (d', F', false) -> emd_spec p q c (penalty_of c pen) d') ->
-    d' = d /\ F' = F /\ emd_spec p q c (penalty_of c pen) d.
-Proof. exact emd_int32_correct_below_bound_partial. Qed.
-Print Assumptions C10_emd_int32_correct_below_bound_partial.
+(* end to end, first link (full): under no_wrap_b (decidable, evaluated per case and variant) a finished
+   run of the int32 code as written returns exactly the distance and flow of the flagged line-level
+   model (as written = exact program = line-level model) *)
+Theorem C10_emd_int32_is_flagged_ll : forall p q c pen ft gd d F,
+  no_wrap_b p q c pen ft gd = true -> emd_int32_as_written p q c pen ft gd = (0, d, F) ->
+  exists fl, emd_hat_int32_llf p q c pen ft gd = Some (d, F, fl).
+Proof. exact emd_int32_is_flagged_ll. Qed.
+Print Assumptions C10_emd_int32_is_flagged_ll.
 
 (* ------------------------------------------------------------------------------------------------
    Round 16.  read_back_bookkeeping, the solver half and the read-back half (the graph-reduction half
@@ -787,3 +776,52 @@ Theorem C10_read_back_net_capacity : forall nv c e st fl r F0 i j, length c = nv
        (seq 0 nv))) (seq 0 nv)).
 Proof. exact read_back_net_capacity. Qed.
 Print Assumptions C10_read_back_net_capacity.
+
+(* the graph emd_hat_impl hands to min_cost_flow is well formed for every input of the wrapper's shape
+   with non-negative ground distances: one adjacency list per node, targets inside the graph,
+   non-negative costs (incl. max(C) >= 0), supplies cancel — the hypotheses of the solver theorems *)
+Theorem C10_reduce_wf : forall Pc Qc Cc emp, length Pc = length Qc -> (forall i j, 0 <= mz Cc i j) ->
+  let r := reduce Pc Qc Cc emp in
+  length (r_cc r) = length (r_bb r) /\
+  (forall l tc, In l (r_cc r) -> In tc l -> (fst tc < length (r_bb r))%nat /\ 0 <= snd tc) /\
+  zsum (r_bb r) = 0.
+Proof. exact reduce_wf. Qed.
+Print Assumptions C10_reduce_wf.
+
+(* the distance, end to end down to the reduced graph (full; premises: the per-case booleans only).
+   For non-negative ground distances, below the bound, a finished run of the int32 code as written
+   returns the answer (d, F, fl) of the flagged line-level model, and if fl is clear then
+       d = pre-flow cost + MINIMUM COST of the reduced graph + |sum P - sum Q| * penalty,
+   where the reduced graph is reduce's for the padded (and, for gd_metric, pre-flowed) arguments
+   (Proofs.EmdEndToEnd.call_args) and is_mincost e c m says: m is the cost of a non-negative flow with
+   balances e and no such flow is cheaper. *)
+Theorem C10_emd_int32_dist_below_bound : forall p q c pen ft gd d F, mat_nonneg c ->
+  no_wrap_b p q c pen ft gd = true ->
+  emd_int32_as_written p q c pen ft gd = (0, d, F) ->
+  exists fl, emd_hat_int32_llf p q c pen ft gd = Some (d, F, fl) /\
+    (fl = false ->
+     let '(Pc, Qc, Cc) := call_args p q c gd in
+     let r := reduce Pc Qc Cc (match pen with Some v => v | None => -1 end) in
+     exists md, is_mincost (r_bb r) (r_cc r) md /\ d = r_pre r + md + r_diff r * r_pen r).
+Proof. exact emd_int32_dist_below_bound. Qed.
+Print Assumptions C10_emd_int32_dist_below_bound.
+
+(* C10_emd_int32_correct_below_bound — PARTIAL, end to end.  FULL statement aimed at: below the bound,
+   a finished run of emd_hat / emd_hat_gd_metric as written for int32 returns the earth mover's distance.
+   PROVED: everything about the code — int32 semantics, the solver (heap, Dijkstra, potentials, pair
+   addressing, conservation, optimality of the capacity flow, x lists = capacities, returned distance
+   = minimum cost), the well-formedness of the reduced graph and the my_dist book-keeping.
+   REMAINING PREMISES, exactly: (i) flag clear (per case, never set);
+   (ii) graph_reduction_correct_on — a statement about `reduce` ONLY (no solver, no int32): pre-flow
+   cost + minimum cost of the reduced graph + |sum P - sum Q| * penalty is the EMD of the call
+   (thresholding through the transhipment node, removal of empty / isolated bins, swap, padding,
+   metric pre-flow).  OPEN; the per-case certificate check of the implementation's output and the
+   in-model certificate of C10_model_emd_correct stand in for it. *)
+Theorem C10_emd_int32_correct_below_bound_partial : forall p q c pen ft gd d F, mat_nonneg c ->
+  no_wrap_b p q c pen ft gd = true ->
+  emd_int32_as_written p q c pen ft gd = (0, d, F) ->
+  (forall fl, emd_hat_int32_llf p q c pen ft gd = Some (d, F, fl) -> fl = false) ->
+  graph_reduction_correct_on p q c pen gd ->
+  emd_spec p q c (penalty_of c pen) d.
+Proof. exact emd_int32_correct_below_bound_partial2. Qed.
+Print Assumptions C10_emd_int32_correct_below_bound_partial.
